@@ -19,8 +19,30 @@ Oracle (real code):
          as_bits twice and after scribbling over the returned bits; every result equals a freshly assembled burst of the same field
          values (and the model's), parses back to the new field values; parsed / assembled bursts held across the whole run and
          re-verified at the end
+  entry  provenance (after seeded change C01-F): EVERY constructor / entry point of the library that yields a Burst - Burst(...) keyword /
+         positional / default burst type, from_bits, from_bytes (bytes, bytearray, memoryview, read-only numpy buffer, frozenbitarray, a bit
+         array the caller scribbles over afterwards), from_mmdvm (frames parsed by the Kaitai parser: both slot bits x both call types x
+         all four frame types, trailing BER / RSSI octets; hand-edited frame objects holding ints), from_hytera_ipsc (72 octets and Kaitai
+         object: both timeslots x all 16 slot types x call types incl. the wakeup ones x frame / packet types; the two pseudo bursts),
+         copy / deepcopy / pickle of a parsed burst, the TransmissionGenerator idiom and the library's generator functions - x all ten
+         sync patterns and valid EMB (data syncs: an assembled payload, kinds rotating; the others: vocoder bits): data type, colour code,
+         sync, payload fields, and parse-then-serialise reproduces the 264 bits; reuse histories parse through these entry points, too
+  attrs  every public attribute a caller can set on a burst object by hand that the model's as_bits does not read (timeslot, sequence_no,
+         stream_no, source / target radio id, transmission_type, hytera_ipsc, voice_burst / is_vocoder via set_is_voice, is_voice_superframe_
+         start, full_bits, info bits; for data bursts the voice-side attributes and vice versa; observers: target_radio_id, repr, debug;
+         the object handed to Transmission / TransmissionWatcher / HyteraIPSC) set to every value of a dictionary, one after the other on
+         the same object, objects of every entry family x every sync pattern and EMB: the 33 octets never change
+  ambient (after seeded change C01-E) a fixed sample of all of the above (every payload kind / variant, every reuse script, voice bursts,
+         entry points of both timeslots, attribute sweeps, generators) is evaluated again (a) in this process with the root logger at
+         DEBUG and a handler that formats every record, sys.stdout / sys.stderr raising or None, random / numpy.random reseeded before every
+         step, numpy errstate raise / abbreviating print options, warnings as errors, in a worker thread, gc disabled, a trace function
+         set, cwd /, rejected calls before every step; (b) in ONE child interpreter `python -O -bb -W error -X dev` with PYTHONOPTIMIZE=2
+         (assert statements and docstrings stripped), fixed PYTHONHASHSEED, C locale, ascii stdio, another TZ, whose first library calls
+         are rejected ones: every canonical observable must equal what the plain run in the parent gave
 Correspondence (model vs code): burst.build -> bits; burst.parse -> sync, flags, EMB, slot type, payload fields, as_bits or error
-kind, also for random and corrupted 264-bit strings; slot.dec / emb.dec; sync.resolve on the structured centres.
+kind, also for random and corrupted 264-bit strings; slot.dec / emb.dec; sync.resolve on the structured centres; burst.mmdvm / burst.ipsc:
+Burst.from_mmdvm / Burst.from_hytera_ipsc against the model's fromMmdvm / fromIpsc (announced burst type from the frame, pseudo bursts,
+undefined enum values rejected).
 """
 import copy
 import enum
@@ -52,10 +74,14 @@ def err_kind(e: BaseException) -> str:
     return "ERR " + n if n in MODEL_ERRORS else "ERR other"
 
 
+LAST_EXC = [None]  # the latest exception the real code raised (for messages only; never compared)
+
+
 def call(fn, *a, **k):
     try:
         return fn(*a, **k), None
     except BaseException as e:  # noqa
+        LAST_EXC[0] = f"{type(e).__name__}: {e}"[:200]
         return None, err_kind(e)
 
 
@@ -209,7 +235,6 @@ def verify_roundtrip(ctx, inp, kname, vname, p, dt, cc, sync, b, pairs_parse, bt
     if len(x) != 264 or len(b.as_bytes()) != 33:
         ctx.fail("wrong-length", inp, f"{kname}: assembled burst has {len(x)} bits", expected=264, actual=len(x))
         return None
-    pa = c03.attrs(p)
     q = None
     for bt in bts:
         q, err = call(Burst.from_bytes, b.as_bytes(), getattr(BT, BT_NAMES[bt]))
@@ -218,35 +243,45 @@ def verify_roundtrip(ctx, inp, kname, vname, p, dt, cc, sync, b, pairs_parse, bt
             pairs_parse.append((f"burst.parse {bt} {xs}", err))
             continue
         pairs_parse.append((f"burst.parse {bt} {xs}", parse_text(q)))
-        if q.data_type != dt:
-            ctx.fail("data-type", inp, f"{kname}: parsed data type {q.data_type} != {dt}", expected=dt.value, actual=q.data_type.value)
-        qcc, e2 = call(lambda: q.colour_code)
-        if e2 or qcc != cc:
-            ctx.fail("colour-code", inp, f"{kname}: parsed colour code {e2 or qcc} != {cc}", expected=cc, actual=e2 or qcc)
-        if q.sync_or_embedded_signalling != sync:
-            ctx.fail("sync", inp, f"{kname}: parsed sync {q.sync_or_embedded_signalling.name} != {sync.name}", expected=sync.name, actual=q.sync_or_embedded_signalling.name)
-        if q.data is None:
-            ctx.fail("payload-missing", inp, f"{kname}: parsed burst has no payload")
-        else:
-            qd = q.data
-            if kname.startswith("rate"):
-                if qd.as_bits() != p.as_bits():
-                    ctx.fail("payload-bits", inp, f"{kname}/{vname}: parsed block bits differ", expected=c03.sbits(p.as_bits()), actual=c03.sbits(qd.as_bits()))
-                qd, e3 = call(qd.convert, p.packet_type)
-                if e3:
-                    ctx.fail("payload-fields", inp, f"{kname}/{vname}: convert({p.packet_type.name}) raised {e3}", actual=e3)
-                    qd = None
-            if qd is not None:
-                d = c03.diff_attrs(pa, c03.attrs(qd))
-                if d:
-                    qa = c03.attrs(qd)
-                    ctx.fail("payload-fields", inp, f"{kname}/{vname}: parsed payload differs from the one the burst was serialised from in {d}",
-                             expected={k: pa.get(k) for k in d}, actual={k: qa.get(k) for k in d})
-        y, e4 = call(q.as_bytes)
-        if e4 or y != b.as_bytes():
-            ctx.fail("reserialise", inp, f"{kname}/{vname}: re-serialised burst differs from the assembled one",
-                     expected=b.as_bytes().hex(), actual=e4 or y.hex())
+        check_parsed(ctx, inp, kname, vname, p, dt, cc, sync, q, b.as_bytes())
     return q
+
+
+def check_parsed(ctx, inp, kname, vname, p, dt, cc, sync, q, want_bytes, how="parsed"):
+    """the property for one burst object q that some entry point of the library produced from the 33 octets want_bytes, which were
+    serialised from payload p, colour code cc, data type dt, sync: data type, colour code, sync, every payload attribute as p's,
+    re-serialised identically"""
+    pa = c03.attrs(p)
+    if q.data_type != dt:
+        ctx.fail("data-type", inp, f"{kname}: {how} data type {q.data_type} != {dt}", expected=dt.value, actual=q.data_type.value)
+    qcc, e2 = call(lambda: q.colour_code)
+    if e2 or qcc != cc:
+        ctx.fail("colour-code", inp, f"{kname}: {how} colour code {e2 or qcc} != {cc}", expected=cc, actual=e2 or qcc)
+    if q.sync_or_embedded_signalling != sync:
+        ctx.fail("sync", inp, f"{kname}: {how} sync {q.sync_or_embedded_signalling.name} != {sync.name}", expected=sync.name, actual=q.sync_or_embedded_signalling.name)
+    if q.data is None:
+        ctx.fail("payload-missing", inp, f"{kname}: {how} burst has no payload")
+    else:
+        qd = q.data
+        if kname.startswith("rate"):
+            if qd.as_bits() != p.as_bits():
+                ctx.fail("payload-bits", inp, f"{kname}/{vname}: {how} block bits differ", expected=c03.sbits(p.as_bits()), actual=c03.sbits(qd.as_bits()))
+            qd, e3 = call(qd.convert, p.packet_type)
+            if e3:
+                ctx.fail("payload-fields", inp, f"{kname}/{vname}: convert({p.packet_type.name}) raised {e3}", actual=e3)
+                qd = None
+        if qd is not None:
+            d = c03.diff_attrs(pa, c03.attrs(qd))
+            if d:
+                qa = c03.attrs(qd)
+                ctx.fail("payload-fields", inp, f"{kname}/{vname}: {how} payload differs from the one the burst was serialised from in {d}",
+                         expected={k: pa.get(k) for k in d}, actual={k: qa.get(k) for k in d})
+    y, e4 = call(q.as_bytes)
+    if e4 or y != want_bytes:
+        ctx.fail("reserialise", inp, f"{kname}/{vname}: re-serialised burst differs from the assembled one",
+                 expected=want_bytes.hex(), actual=e4 or y.hex())
+        return False
+    return True
 
 
 def check_voice(ctx, x, bt, what, inp, pairs_parse, hold=None, twice=False):
@@ -465,7 +500,7 @@ def bits_or_err(b):
 
 
 HISTORY_SCRIPTS = ("mutate-fields", "mutate-nested", "replace-slot-sync", "replace-payload", "recycled-payload", "parse-mutate", "parse-serialise-mutate",
-                   "parse-mutate-slot-in-place", "twice")
+                   "parse-mutate-slot-in-place", "twice", "parse-relay-payload")
 
 
 def other_kind(kname, dt):
@@ -524,6 +559,12 @@ def run_history(ctx, spec, pairs_build, pairs_parse):
         ctx.fail("serialise-raises", spec, f"{what}: as_bits of the assembled burst raised {first}", actual=first)
         return
 
+    def parse_first():
+        """the burst parsed from the assembled octets - by Burst.from_bytes or by the entry point the history names"""
+        if spec.get("entry"):
+            return call(enter, spec["entry"], bitarray(first))
+        return call(Burst.from_bytes, b.as_bytes(), BT.DataAndControl)
+
     def reparse_unchanged(raw, want, why):
         """a second parse of the same octets is independent of what was done to the first parse result"""
         q1, err = call(Burst.from_bytes, raw, BT.DataAndControl)
@@ -572,7 +613,7 @@ def run_history(ctx, spec, pairs_build, pairs_parse):
         want2 = err or bits_or_err(want2)
         if want2.startswith("ERR"):
             return
-        q, err = call(Burst.from_bytes, b.as_bytes(), BT.DataAndControl)
+        q, err = parse_first()
         q2, err2 = call(Burst.from_bytes, bitarray(want2).tobytes(), BT.DataAndControl)
         if err or err2 or q.data is None or q2.data is None:
             return  # reported by the plain round trip
@@ -591,13 +632,29 @@ def run_history(ctx, spec, pairs_build, pairs_parse):
         final(q, kname, dt, cc2, s2, vals2, p2)
     elif script == "parse-mutate-slot-in-place":
         # the slot type object a parse returned is changed in place (to the values SlotType(cc2, dt) holds)
-        q, err = call(Burst.from_bytes, b.as_bytes(), BT.DataAndControl)
+        q, err = parse_first()
         if err or q.slot_type is None:
             return  # reported by the plain round trip
         copy_state(q.slot_type, ST(colour_code=cc2, data_type=dt), True)
         same_as_fresh(q, p, cc2, dt, s1, "after changing the parsed burst's slot type object in place")
         reparse_unchanged(b.as_bytes(), first, "the slot type object of an earlier parse result was changed")
         final(q, kname, dt, cc2, s1, vals1, p)
+    elif script == "parse-relay-payload":
+        # the payload object a parse returned (whatever entry point parsed it) is assembled into a NEW burst with another colour code and
+        # sync - and, once more, into the burst object it came from
+        q, err = parse_first()
+        if err or q.data is None:
+            return  # reported by the plain round trip
+        b2, err = call(assemble, q.data, cc2, dt, s2)
+        if err:
+            ctx.fail("assemble-raises", spec, f"{what}: assembling a burst from a parsed payload raised {err}", actual=err)
+            return
+        same_as_fresh(b2, p, cc2, dt, s2, "the parsed payload object assembled into a new burst")
+        q.slot_type = ST(colour_code=cc2, data_type=dt)
+        q.sync_or_embedded_signalling = s2
+        same_as_fresh(q, p, cc2, dt, s2, "after replacing slot type and sync of the parsed burst")
+        reparse_unchanged(b.as_bytes(), first, "the payload of an earlier parse result was sent again")
+        final(b2, kname, dt, cc2, s2, vals1, p)
     elif script == "twice":
         serialise_twice(ctx, b, spec, what + ", assembled burst")
         q, err = call(Burst.from_bytes, b.as_bytes(), BT.DataAndControl)
@@ -625,6 +682,933 @@ def vary(rng, var, vals, fix):
     return v2
 
 
+# ------------------------------------------------------------------------------------------------
+# provenance (hardening after seeded change C01-F): every constructor / entry point of the library that yields a Burst object, and
+# the attributes of a Burst object a caller (or another code path of the library) sets after it was made
+IPSC_SLOT_VALUES = [0x0000, 0x1111, 0x2222, 0x3333, 0x4444, 0x5555, 0x6666, 0x7777, 0x8888, 0x9999, 0xAAAA, 0xBBBB, 0xCCCC, 0xDDDD, 0xEEEE, 0xFFFF]
+IPSC_VOCODER = {0x0000, 0x1111, 0x7777, 0x8888, 0x9999, 0xAAAA, 0xBBBB, 0xCCCC}  # hytera SlotType.is_vocoder, as read from the source
+IPSC_CALLS = [0x00, 0x01, 0x02, 0x0C]
+IPSC_FRAMES = [0x0000, 0x1111, 0x3333, 0x6666, 0xBBBB, 0xEEEE]
+IPSC_PACKETS = [65, 66, 67, 1]
+
+
+def mmdvm_frame(x33, e):
+    """a Homebrew / MMDVM `DMRD` datagram around the 33 burst octets (layout: okdmr.kaitai.homebrew.mmdvm2020 TypeDmrData)"""
+    flags = (e["slot"] << 7) | (e["call"] << 6) | (e["ftype"] << 4) | e["dtype"]
+    return (b"DMRD" + bytes([e["seq"]]) + e["src"].to_bytes(3, "big") + e["dst"].to_bytes(3, "big") + e["rptr"].to_bytes(4, "big")
+            + bytes([flags]) + e["stream"].to_bytes(4, "big") + x33 + bytes.fromhex(e.get("tail", "")))
+
+
+def ipsc_frame(x33, e):
+    """a Hytera IP site connect datagram around the 33 burst octets (layout: HyteraIPSC.from_ipsc_bytes; payload octets swapped pairwise)"""
+    pl = x33 + bytes([e["pad"]])
+    swapped = bytes(pl[i ^ 1] for i in range(34))
+    return (b"\x5a\x5a\x5a\x5a" + bytes([e["seq"]]) + bytes(3) + bytes([e["ptype"]]) + bytes.fromhex("00050101000000")
+            + e["ts"].to_bytes(2, "little") + e["slot"].to_bytes(2, "little") + (e["cc"] * 0x1111).to_bytes(2, "little")
+            + e["ftype"].to_bytes(2, "little") + b"\x40\x00" + swapped + b"\xe2\x08" + bytes([e["call"]])
+            + (e["dst"] << 8).to_bytes(4, "little") + (e["src"] << 8).to_bytes(4, "little") + b"\x00")
+
+
+def enter(e, x):
+    """the Burst object the entry point described by e yields for the 264 bits x"""
+    Burst, BT, DT, SP, ST, EMB = lib()
+    via = e["via"]
+    bt = getattr(BT, BT_NAMES[e["bt"]]) if e.get("bt") else None
+    xb = x.tobytes()
+    q = None
+    if via == "from_bytes":
+        arg = e.get("arg", "bytes")
+        if arg == "bytes":
+            a = xb
+        elif arg == "bytearray":
+            a = bytearray(xb)
+        elif arg == "memoryview":
+            a = memoryview(xb)
+        else:  # a read-only numpy buffer
+            import numpy
+
+            a = numpy.frombuffer(xb, dtype=numpy.uint8)
+        q = Burst.from_bytes(a) if bt is None else Burst.from_bytes(a, bt) if e.get("pos") else Burst.from_bytes(data=a, burst_type=bt)
+    elif via == "from_bits":
+        from bitarray import frozenbitarray
+
+        a = frozenbitarray(x) if e.get("arg") == "frozen" else bitarray(x)
+        q = Burst.from_bits(a, bt)
+        if e.get("arg") == "scribbled":  # the caller re-uses its buffer after the parse
+            a.invert()
+            a[108:156] = 0
+    elif via == "ctor":
+        a = bitarray(x)
+        q = Burst(full_bits=a) if bt is None else Burst(a, bt) if e.get("pos") else Burst(full_bits=a, burst_type=bt)
+    elif via == "from_mmdvm":
+        from okdmr.kaitai.homebrew.mmdvm2020 import Mmdvm2020
+
+        m = Mmdvm2020.from_bytes(mmdvm_frame(xb, e)).command_data
+        if e.get("edit") == "ints":  # a hand-edited frame object: plain ints where the Kaitai parser leaves enum members
+            m.frame_type, m.slot_no, m.call_type = e["ftype"], e["slot"], e["call"]
+        q = Burst.from_mmdvm(m)
+    elif via == "from_hytera_ipsc":
+        f = ipsc_frame(xb, e)
+        if e["how"] == "bytes":
+            q = Burst.from_hytera_ipsc(f)
+        else:
+            from okdmr.kaitai.hytera.ip_site_connect_protocol import IpSiteConnectProtocol
+
+            q = Burst.from_hytera_ipsc(IpSiteConnectProtocol.from_bytes(f))
+    elif via in ("copy", "deepcopy", "pickle"):
+        import pickle
+
+        q0 = Burst.from_bits(bitarray(x), bt)
+        q = copy.copy(q0) if via == "copy" else copy.deepcopy(q0) if via == "deepcopy" else pickle.loads(pickle.dumps(q0))
+        if via != "copy":
+            # the original is used (and changed) afterwards
+            q0.sync_or_embedded_signalling = SP.Reserved
+            q0.voice_bits = q0.voice_bits[:0]
+            q0.timeslot = 2
+    else:
+        raise KeyError(via)
+    return q
+
+
+def announced(e):
+    """the burst type the entry point announces to Burst.__init__ (as read from the source; the model decides the same from the
+    extracted tables: driver ops burst.mmdvm / burst.ipsc); 'sync' / 'wakeup': the two Hytera pseudo bursts (as_bits = the bits given)"""
+    via = e["via"]
+    if via == "from_bytes":
+        return e.get("bt") or "D"
+    if via == "ctor":
+        return e.get("bt") or "U"
+    if via == "from_mmdvm":
+        # `mmdvm.frame_type == 2` is never true for the enum member the Kaitai parser stores
+        return "D" if e.get("edit") == "ints" and e["ftype"] == 2 else "V"
+    if via == "from_hytera_ipsc":
+        if e["slot"] == 0xEEEE:
+            return "sync"
+        if e["slot"] == 0xDDDD or e["call"] in (0x02, 0x0C):
+            return "wakeup"
+        return "V" if e["slot"] in IPSC_VOCODER else "D"
+    return e["bt"]
+
+
+def entry_line(e, xs):
+    """the model's line for this entry point"""
+    via = e["via"]
+    if via == "from_mmdvm":
+        k = "I" if e.get("edit") == "ints" else "E"
+        return f"burst.mmdvm {k}{e['ftype']} {k}{e['slot']} {xs}"
+    if via == "from_hytera_ipsc":
+        return f"burst.ipsc {e['slot']} {e['call']} {e['ts']} {xs}"
+    return f"burst.parse {announced(e)} {xs}"
+
+
+def entry_name(e):
+    via = e["via"]
+    if via == "from_mmdvm":
+        return f"from_mmdvm(slot bit {e['slot']}, frame type {e['ftype']}{', ints' if e.get('edit') else ''})"
+    if via == "from_hytera_ipsc":
+        return f"from_hytera_ipsc({e['how']}, timeslot {e['ts']:#06x}, slot type {e['slot']:#06x}, call type {e['call']})"
+    return f"{via}({e.get('arg', '')}{',' if e.get('arg') else ''}{BT_NAMES.get(e.get('bt'), 'default burst type')})"
+
+
+def entry_specs(rng):
+    """every constructor / entry point, with every combination of the flags that select a branch in it"""
+    out = []
+    for bt in ("U", "V", "D"):
+        out.append({"via": "from_bytes", "bt": bt})
+        out.append({"via": "from_bytes", "bt": bt, "pos": 1})
+        out.append({"via": "from_bits", "bt": bt})
+        out.append({"via": "ctor", "bt": bt})
+        out.append({"via": "ctor", "bt": bt, "pos": 1})
+        for via in ("copy", "deepcopy", "pickle"):
+            out.append({"via": via, "bt": bt})
+    out.append({"via": "from_bytes", "bt": None})
+    out.append({"via": "ctor", "bt": None})
+    for arg in ("bytearray", "memoryview", "numpy"):
+        out.append({"via": "from_bytes", "bt": rng.choice("UVD"), "arg": arg})
+    for arg in ("frozen", "scribbled"):
+        out.append({"via": "from_bits", "bt": rng.choice("UVD"), "arg": arg})
+
+    def ids():
+        return {"seq": rng.choice((0, 1, 255, rng.randrange(256))), "src": rng.choice((0, 1, 2**24 - 1, rng.randrange(2**24))),
+                "dst": rng.choice((0, 1, 2**24 - 1, rng.randrange(2**24)))}
+
+    for slot in (0, 1):
+        for call_ in (0, 1):
+            for ftype in range(4):
+                out.append(dict(ids(), via="from_mmdvm", slot=slot, call=call_, ftype=ftype, dtype=rng.randrange(16), rptr=rng.getrandbits(32),
+                                stream=rng.choice((0, 2**32 - 1, rng.getrandbits(32))), tail=rng.choice(("", "00", "0a2f", "ffff"))))
+        for ftype in range(4):
+            out.append(dict(ids(), via="from_mmdvm", slot=slot, call=rng.randrange(2), ftype=ftype, dtype=rng.randrange(16), rptr=rng.getrandbits(32),
+                            stream=rng.getrandbits(32), tail="", edit="ints"))
+    k = 0
+    for how in ("bytes", "kaitai"):
+        for ts in (0x1111, 0x2222):
+            for slot in IPSC_SLOT_VALUES:
+                k += 1
+                # the wakeup call types turn every slot type into a wakeup pseudo burst: mostly the two ordinary call types
+                call_ = IPSC_CALLS[k % 2] if k % 7 else IPSC_CALLS[2 + (k // 7) % 2]
+                out.append(dict(ids(), via="from_hytera_ipsc", how=how, ts=ts, slot=slot, call=call_, ftype=IPSC_FRAMES[k % 6], ptype=IPSC_PACKETS[k % 4],
+                                cc=rng.randrange(16), pad=rng.choice((0, 0, 255, rng.randrange(256)))))
+    return out
+
+
+def attr_tokens(cls):
+    """(attribute or @action, python expression) pairs: everything a caller can set on a Burst object by hand that - per the model
+    (Props/C01 serialise_reads_data / serialise_reads_voice / serialise_ignores_aux) - as_bits does not read.  cls: data |
+    voice-sync | voice-emb | pseudo (Hytera sync / wakeup pseudo burst: as_bits returns full_bits)"""
+    t = []
+    t += [("timeslot", v) for v in ("2", "0", "1", "3", "-1", "255", "None", "'2'", "True", "2.0", "Timeslot.Timeslot_2", "Mmdvm2020.Timeslots.timeslot_2")]
+    t += [("sequence_no", v) for v in ("1", "0", "2", "5", "6", "7", "255", "256", "-1", "None")] + [("@set_sequence_no", "3"), ("@set_sequence_no", "0")]
+    t += [("stream_no", v) for v in ("b'\\xff\\xff\\xff\\xff'", "bytes(4)", "b''", "b'\\x00\\x00\\x00\\x02'", "16909060", "None")] + [("@set_stream_no", "b'\\x01\\x02\\x03\\x04'")]
+    for a in ("source_radio_id", "target_radio_id", "_target_radio_id"):
+        t += [(a, v) for v in ("1", "0", "2", "16777215", "16777216", "4294967295", "ADDR", "None")]
+    t += [("_target_radio_id_resolve_attempt", "True"), ("_target_radio_id_resolve_attempt", "False")]
+    t += [("transmission_type", v) for v in ("TransmissionTypes.VoiceTransmission", "TransmissionTypes.DataTransmission", "TransmissionTypes.Idle", "None")]
+    t += [("hytera_ipsc", v) for v in ("ipsc(0x2222, 0x3333, CC ^ 1)", "ipsc(0x1111, 0xEEEE, 0)", "ipsc(0x2222, 0xDDDD, 15)", "ipsc(0x2222, 0x7777, CC)",
+                                       "ipsc(0x1111, 0x6666, (CC + 8) % 16)", "ipsc(0x2222, 0x1111, CC, payload=bytes(33))", "None")]
+    t += [("@set_is_voice", "VoiceBursts." + m) for m in ("VoiceBurstA", "VoiceBurstB", "VoiceBurstC", "VoiceBurstD", "VoiceBurstE", "VoiceBurstF", "Unknown")]
+    t += [("voice_burst", "VoiceBursts.VoiceBurstA"), ("voice_burst", "VoiceBursts.VoiceBurstF"), ("voice_burst", "VoiceBursts.Unknown")]
+    t += [("is_vocoder", "True"), ("is_vocoder", "False"), ("is_voice_superframe_start", "True"), ("is_voice_superframe_start", "False")]
+    t += [("@read", a) for a in ("target_radio_id", "colour_code", "data_type")] + [("@call", "__repr__"), ("@call", "guess_target_radio_id"), ("@debug", "False")]
+    t += [("@via", "Transmission"), ("@via", "TransmissionWatcher"), ("@via", "HyteraIPSC.as_ipsc_bytes")]
+    if cls != "pseudo":
+        t += [("full_bits", "~q.full_bits"), ("full_bits", "zeros(264)"), ("full_bits", "None"), ("info_bits_original", "None"), ("info_bits_original", "zeros(196)"),
+              ("info_bits_deinterleaved", "None"), ("info_bits_deinterleaved", "zeros(96)")]
+    if cls == "data":
+        t += [("voice_bits", "~q.voice_bits"), ("voice_bits", "None"), ("embedded_signalling_bits", "~q.embedded_signalling_bits"), ("embedded_signalling_bits", "None"),
+              ("emb", "EMB(colour_code=CC ^ 1, preemption_and_power_control_indicator=1, link_control_start_stop=2)"), ("emb", "None")]
+    if cls in ("voice-sync", "voice-emb"):
+        t += [("slot_type", "ST(colour_code=CC ^ 1, data_type=DT.CSBK)"), ("slot_type", "ST(colour_code=3, data_type=DT.Rate34Data)"), ("slot_type", "None"),
+              ("has_slot_type", "True"), ("has_slot_type", "False"), ("data", "PDU"), ("data", "None")]
+    if cls == "voice-sync":
+        t += [("emb", "EMB(colour_code=CC ^ 1, preemption_and_power_control_indicator=1, link_control_start_stop=2)"), ("emb", "None"),
+              ("embedded_signalling_bits", "~q.embedded_signalling_bits"), ("embedded_signalling_bits", "None")]
+    return t
+
+
+def attr_env(q):
+    Burst, BT, DT, SP, ST, EMB = lib()
+    from okdmr.dmrlib.etsi.layer2.elements.voice_bursts import VoiceBursts
+    from okdmr.dmrlib.etsi.layer2.pdu.csbk import CSBK
+    from okdmr.dmrlib.etsi.layer2.elements.csbk_opcodes import CsbkOpcodes
+    from okdmr.dmrlib.hytera.hytera_ipsc import HyteraIPSC
+    from okdmr.dmrlib.hytera.ipsc_elements.call_type import CallType
+    from okdmr.dmrlib.hytera.ipsc_elements.frame_type import FrameType
+    from okdmr.dmrlib.hytera.ipsc_elements.packet_type import PacketType
+    from okdmr.dmrlib.hytera.ipsc_elements.slot_type import SlotType as IpscSlotType
+    from okdmr.dmrlib.hytera.ipsc_elements.timeslot import Timeslot
+    from okdmr.dmrlib.transmission.transmission_types import TransmissionTypes
+    from okdmr.kaitai.homebrew.mmdvm2020 import Mmdvm2020
+
+    def ipsc(ts, slot, cc, payload=None):
+        return HyteraIPSC(call_type=CallType.GroupCall, frame_type=FrameType.Data, packet_type=PacketType.TypeA, slot_type=IpscSlotType(slot), timeslot=Timeslot(ts),
+                          sequence_number=7, color_code=cc, destination_radio_id=9, source_radio_id=2623266, payload=payload if payload is not None else bytes(33))
+
+    cc, e = call(lambda: q.colour_code)
+    addr, e2 = call(lambda: int(getattr(q.data, "target_address", None) or getattr(q.data, "llid_destination", None) or 2623266))
+    def zeros(n):
+        z = bitarray(n)
+        z.setall(0)
+        return z
+
+    return {"q": q, "bitarray": bitarray, "zeros": zeros, "DT": DT, "ST": ST, "EMB": EMB, "SP": SP, "VoiceBursts": VoiceBursts, "TransmissionTypes": TransmissionTypes,
+            "Timeslot": Timeslot, "Mmdvm2020": Mmdvm2020, "ipsc": ipsc, "CC": cc if not e else 1, "ADDR": addr if not e2 else 2623266,
+            "PDU": CSBK(csbko=CsbkOpcodes.PreambleCSBK, source_address=1, target_address=2, blocks_to_follow=3, last_block=True)}
+
+
+def apply_attr(q, attr, expr, env):
+    if attr == "@read":
+        return getattr(q, expr)
+    if attr == "@call":
+        return getattr(q, expr)()
+    if attr == "@debug":
+        return q.debug(printout=False)
+    if attr == "@via":
+        # the object is handed to another part of the library that keeps / annotates bursts (what it prints is not looked at)
+        import contextlib
+        import io
+        import logging
+
+        quiet = logging.NullHandler()  # (keeps logging's last-resort handler from writing the library's warnings to stderr)
+        logging.getLogger().addHandler(quiet)
+        try:
+            with contextlib.redirect_stdout(io.StringIO()):
+                if expr == "Transmission":
+                    from okdmr.dmrlib.transmission.transmission import Transmission
+
+                    return Transmission().process_packet(q)
+                if expr == "TransmissionWatcher":
+                    from okdmr.dmrlib.transmission.transmission_watcher import TransmissionWatcher
+
+                    return TransmissionWatcher().process_burst(q)
+                return env["ipsc"](0x2222, 0x3333, 1, payload=q).as_ipsc_bytes()
+        finally:
+            logging.getLogger().removeHandler(quiet)
+    v = eval(expr, env)  # noqa: S307  (the expressions are the constants of attr_tokens)
+    if attr.startswith("@"):
+        return getattr(q, attr[1:])(v)
+    setattr(q, attr, v)
+
+
+def attr_sweep(ctx, inp, q, want, tokens, what):
+    """tokens applied one after the other to the SAME object (so every value is seen next to the latest values of the others);
+    after each the object must serialise to the same 264 bits.  Returns the number applied before the first failure."""
+    env = attr_env(q)
+    done = []
+    for attr, expr in tokens:
+        done.append([attr, expr])
+        ctx.count(f"attrs:{attr}")
+        call(apply_attr, q, attr, expr, env)  # (an observer may raise on the junk values set before: only as_bits is looked at)
+        got = bits_or_err(q)
+        if got != want:
+            ctx.fail("attrs-change-serialisation", dict(inp, attrs=done),
+                     f"{what}: after {'setting ' + attr + ' = ' + expr if attr[0] != '@' else attr[1:] + '(' + expr + ')'} by hand the burst object serialises differently "
+                     f"(as_bits does not read this attribute in the model)", expected=want, actual=got)
+            return len(done) - 1
+    return len(done)
+
+
+def content_bits(c):
+    """(x, payload view or None) of a content description: 264 bits given, or a data burst assembled from fields"""
+    Burst, BT, DT, SP, ST, EMB = lib()
+    if "bits" in c:
+        return bitarray(c["bits"]), None
+    srcs = {(k, s.name): (k, dt, s, t) for k, dt, s, t in payload_sources()}
+    kname, dt, src, _ = srcs[(c["kind"], c["c03kind"])]
+    var = next(v for v in src.variants if v.name == c["variant"])
+    p = var.build(c["fields"])
+    b = assemble(p, c["cc"], dt, SP[c["sync"]])
+    return b.as_bits(), (kname, var, p, dt, c["cc"], SP[c["sync"]])
+
+
+def content_class(c):
+    return "data" if "bits" not in c else c["what"]
+
+
+def check_entry(ctx, inp, pairs, hold=None):
+    """one entry point on one burst: inp = {mode: entry, entry: {...}, content: {...}, attrs: [[attribute, expression] ...] | 'all' | None}"""
+    Burst, BT, DT, SP, ST, EMB = lib()
+    e, c = inp["entry"], inp["content"]
+    r, err = call(content_bits, c)
+    if err:
+        return  # reported by the plain data path
+    x, view = r
+    xs = c03.sbits(x)
+    cls = content_class(c)
+    ann = announced(e) if e["via"] != "assemble" else "D"
+    what = f"{entry_name(e) if e['via'] != 'assemble' else 'assembled burst object'} on a {cls} burst ({c.get('sync') or c.get('centre')})"
+    if e["via"] == "assemble":
+        kname, var, p, dt, cc, sync = view
+        q, err = call(lambda: assemble(var.build(c["fields"]), cc, dt, sync))
+        if err:
+            return
+    else:
+        q, err = call(enter, e, x)
+        line = entry_line(e, xs) if ann in ("U", "V", "D") else None
+        # inside the property: assembled data bursts and voice bursts around a voice sync whatever is announced; EMB / other sync
+        # centres when not announced as data.  The two Hytera pseudo bursts: outside (only: a constructed one returns its bits)
+        covered = ann in ("U", "V", "D") and (cls in ("data", "voice-sync") or ann != "D")
+        if err:
+            if line:
+                pairs.append((line, err))
+            if covered:
+                ctx.fail("entry-raises", inp, f"{what}: the entry point raised {err}", actual=err)
+            return
+        if line:
+            pairs.append((line, parse_text(q)))
+        elif e["via"] == "from_hytera_ipsc":
+            pairs.append((entry_line(e, xs), {"HyteraIPSCSync": "pseudo sync", "HyteraIPSCWakeup": "pseudo wakeup"}.get(type(q).__name__, "ok " + type(q).__name__)))
+        if not covered and ann in ("U", "V", "D"):
+            return
+    if cls == "data" and ann in ("U", "V", "D"):
+        kname, var, p, dt, cc, sync = view
+        ok = check_parsed(ctx, inp, kname, var.name, p, dt, cc, sync, q, x.tobytes(), how=f"({what})")
+    else:
+        got = bits_or_err(q)
+        ok = got == xs
+        if not ok:
+            ctx.fail("entry-roundtrip", inp, f"{what}: parse-then-serialise does not reproduce the 264 bits", expected=xs, actual=got)
+    if not ok:
+        return
+    tokens = inp.get("attrs")
+    if tokens:
+        tcls = "pseudo" if ann in ("sync", "wakeup") else "voice-sync" if cls == "other-sync" else cls
+        if tokens == "all":
+            tokens = attr_tokens(tcls)
+        attr_sweep(ctx, {k: v for k, v in inp.items() if k != "attrs"}, q, xs, tokens, what)
+    if hold is not None:
+        hold.offer(q, x.tobytes(), None, inp)
+
+
+def voice_contents(rng):
+    """264-bit voice bursts: random vocoder bits around every voice sync, the two other sync patterns, and valid EMB"""
+    voice, data, other = sync_sets()
+    out = []
+    for s in voice + other:
+        x = voice_frame(int2ba(rng.getrandbits(216), length=216), s.as_bits())
+        out.append({"bits": c03.sbits(x), "what": "voice-sync" if s in voice else "other-sync", "centre": s.name})
+    cc, pi, lcss, e16 = rng.choice(emb_table())
+    x = voice_frame(int2ba(rng.getrandbits(216), length=216), e16[:8] + int2ba(rng.getrandbits(32), length=32) + e16[8:])
+    out.append({"bits": c03.sbits(x), "what": "voice-emb", "centre": f"EMB cc={cc} pi={pi} lcss={lcss}"})
+    return out
+
+
+def data_content(rng, kname, src, var, cc, sync):
+    vals = var.random_vals(rng)
+    if var.fix:
+        vals = var.fix(vals)
+    if kname in ("vlc", "tlc") and len(vals["crc"]) != 24:
+        vals["crc"] = c03.BITS(24).rand(rng)
+    return {"kind": kname, "c03kind": src.name, "variant": var.name, "fields": vals, "cc": cc, "sync": sync.name}
+
+
+def generator_cases(rng):
+    """calls of the library's own burst generators (TransmissionGenerator); JSON-able"""
+    voice, data, other = sync_sets()
+    out = []
+    for s in data:
+        out.append({"mode": "generator", "fn": "csbk_preambles", "src": rng.randrange(2**24), "dst": rng.randrange(2**24), "indiv": rng.random() < 0.5,
+                    "pre": rng.randrange(1, 4), "follow": rng.randrange(0, 5), "cc": rng.randrange(16), "sync": s.name})
+    for rate in ("12", "34", "1"):
+        for conf in (True, False):
+            out.append({"mode": "generator", "fn": "data_bursts", "rate": rate, "confirmed": conf, "cc": rng.randrange(16),
+                        "userdata": rng.randbytes(rng.randrange(1, 60)).hex()})
+    return out
+
+
+def check_generator(ctx, inp, pairs_parse):
+    """bursts the library's generators return: each serialises, parses back to its own payload, colour code, data type, sync"""
+    Burst, BT, DT, SP, ST, EMB = lib()
+    from okdmr.dmrlib.transmission.transmission_generator import TransmissionGenerator as TG
+    from okdmr.dmrlib.etsi.layer2.pdu.rate12_data import Rate12Data
+    from okdmr.dmrlib.etsi.layer2.pdu.rate34_data import Rate34Data
+    from okdmr.dmrlib.etsi.layer2.pdu.rate1_data import Rate1Data
+
+    if inp["fn"] == "csbk_preambles":
+        bursts, err = call(TG.generate_csbk_preambles, source_address=inp["src"], target_address=inp["dst"], target_address_is_individual=inp["indiv"],
+                           num_of_preambles=inp["pre"], num_of_following_data_blocks=inp["follow"], colour_code=inp["cc"], sync_pattern=SP[inp["sync"]])
+        kname, dt, sync = "csbk", DT.CSBK, SP[inp["sync"]]
+    else:
+        cls = {"12": Rate12Data, "34": Rate34Data, "1": Rate1Data}[inp["rate"]]
+        r, err = call(TG.generate_data_bursts, packet_type=cls, userdata=bytes.fromhex(inp["userdata"]), colour_code=inp["cc"], is_confirmed=inp["confirmed"])
+        bursts = r[0] if not err else None
+        kname, dt, sync = "rate" + inp["rate"], cls.get_data_type(), SP.BsSourcedData
+    if err:
+        ctx.fail("generator-raises", inp, f"TransmissionGenerator ({inp['fn']}) raised {err}", actual=err)
+        return
+    for i, b in enumerate(bursts):
+        if b.data is None:
+            ctx.fail("payload-missing", inp, f"generated burst {i} has no payload")
+            continue
+        verify_roundtrip(ctx, dict(inp, burst=i), kname, "generated", b.data, dt, inp["cc"], sync, b, pairs_parse, bts=("D", "U"))
+
+
+# ------------------------------------------------------------------------------------------------
+# ambient interpreter / process state (hardening after seeded change C01-E): the same fixed sample of the oracle is evaluated
+# again under each ambient setting, in this process and in one child interpreter with assertions stripped; every canonical
+# observable must equal what the plain run gave
+CHILD_FLAGS = ["-O", "-bb", "-W", "error", "-X", "dev"]
+CHILD_ENV = {"PYTHONOPTIMIZE": "2", "PYTHONHASHSEED": "20260926", "PYTHONDONTWRITEBYTECODE": "1", "LC_ALL": "C", "LANG": "C", "PYTHONIOENCODING": "ascii:strict",
+             "PYTHONUTF8": "0", "TZ": "Pacific/Kiritimati"}
+
+
+class Rec:
+    """collects the failures of the oracle functions it is handed to (JSON-able)"""
+
+    def __init__(self, forward=None):
+        self.failures, self.forward = [], forward
+
+    def fail(self, kind, input, what, expected=None, actual=None):
+        if isinstance(actual, str) and actual.startswith("ERR") and LAST_EXC[0]:
+            what += f" [{LAST_EXC[0]}]"
+        self.failures.append(json.loads(json.dumps([kind, what, expected, actual], default=str)))
+        if self.forward is not None:
+            self.forward.fail(kind, input, what, expected, actual)
+
+    def count(self, *a, **k):
+        pass
+
+    def case(self, *a, **k):
+        pass
+
+
+def init_kinds():
+    if payload_text.kinds is None:
+        payload_text.kinds = {k.name: k for k in c03.kinds()}
+
+
+def run_input(r, inp, pairs, hold=None):
+    """the oracle on one recorded / sampled input (every `mode` the checks produce); appends the canonical (model line, output)
+    pairs that were observed"""
+    Burst, BT, DT, SP, ST, EMB = lib()
+    init_kinds()
+    mode = inp.get("mode")
+    if mode == "data":
+        srcs = {(k, s.name): (k, dt, s, t) for k, dt, s, t in payload_sources()}
+        kname, dt, src, _ = srcs[(inp["kind"], inp["c03kind"])]
+        var = next(v for v in src.variants if v.name == inp["variant"])
+        pb = []
+        check_data(r, kname, dt, src, var, inp["fields"], inp["cc"], SP[inp["sync"]], pb, pairs, bts=("D", "V", "U"), hold=hold)
+        pairs[:0] = pb
+    elif mode == "voice":
+        check_voice(r, bitarray(inp["bits"]), inp["burst_type"], "replay", inp, pairs, hold=hold, twice=True)
+        if "emb2" in inp:
+            voice_emb_reuse(r, bitarray(inp["bits"]), inp["burst_type"], tuple(inp["emb2"]) + (emb_word(*inp["emb2"]),),
+                            {k: v for k, v in inp.items() if k not in ("emb2", "history")})
+    elif mode == "history":
+        pb = []
+        run_history(r, {k: v for k, v in inp.items() if k != "step"}, pb, pairs)
+        pairs[:0] = pb
+    elif mode == "entry":
+        check_entry(r, inp, pairs, hold=hold)
+    elif mode == "generator":
+        check_generator(r, {k: v for k, v in inp.items() if k != "burst"}, pairs)
+    else:
+        raise KeyError(f"unknown input mode {mode}")
+
+
+def run_sample(inps, before_each=None):
+    """[{failures, pairs}] of the oracle on every input; harness exceptions are part of the outcome (never raised)"""
+    out = []
+    for k, inp in enumerate(inps):
+        if before_each is not None:
+            before_each(k)
+        rec, pairs = Rec(), []
+        try:
+            run_input(rec, inp, pairs)
+            crash = None
+        except BaseException as e:  # noqa
+            crash = f"{type(e).__name__}: {e}"[:300]
+        out.append({"failures": rec.failures, "pairs": [[l, o] for l, o in pairs], "crash": crash})
+    return out
+
+
+def failing_calls():
+    """calls the library must reject; their outcome is not looked at here (the model's answer is compared elsewhere) - what matters is
+    that they leave nothing behind that changes a later valid call"""
+    Burst, BT, DT, SP, ST, EMB = lib()
+    from okdmr.dmrlib.etsi.fec.bptc_196_96 import BPTC19696
+    from okdmr.dmrlib.etsi.fec.trellis import Trellis34
+
+    def Z(n):
+        z = bitarray(n)
+        z.setall(0)
+        return z
+
+    import warnings
+
+    x = Z(264)
+    x[108:156] = SP.Tdma1Data.as_bits()
+    calls = (
+        lambda: Burst.from_bits(Z(263), BT.DataAndControl),
+        lambda: Burst.from_bytes(bytes(34), BT.Vocoder),
+        lambda: Burst.from_bits(bitarray(x), BT.Undefined).as_bits(),  # all-zero slot type: zero parity regenerated, PI header of zeros
+        lambda: Burst.from_bits(~Z(264), BT.DataAndControl),  # data type 15: reserved
+        lambda: Burst(burst_type=BT.DataAndControl).as_bits(),  # nothing assigned
+        lambda: Burst.from_hytera_ipsc(bytes(72)),
+        lambda: Burst.from_mmdvm(None),
+        lambda: ST(colour_code=16, data_type=DT.CSBK),
+        lambda: EMB(colour_code=1, preemption_and_power_control_indicator=2, link_control_start_stop=0),
+        lambda: SP.resolve_bytes(bytes(5)),
+        lambda: BPTC19696.encode(Z(95)),
+        lambda: BPTC19696.deinterleave_data_bits(bits=Z(195)),
+        lambda: Trellis34.encode(Z(143)),
+        lambda: Trellis34.decode(Z(197)),
+    )
+    with warnings.catch_warnings():
+        warnings.simplefilter("ignore")
+        for fn in calls:
+            call(fn)
+
+
+class _Broken:
+    """a closed / broken output stream"""
+
+    encoding = "utf-8"
+
+    def write(self, *a):
+        raise OSError("broken stream")
+
+    def flush(self):
+        raise OSError("broken stream")
+
+    def isatty(self):
+        return False
+
+    def fileno(self):
+        raise OSError("broken stream")
+
+
+def ambient_settings():
+    """name -> function(inps) -> results; each restores what it changed"""
+    import contextlib
+    import gc
+    import logging
+    import random
+    import sys
+    import threading
+    import warnings
+
+    import numpy
+
+    seen = {"log": 0}
+
+    class Strict(logging.Handler):
+        def emit(self, record):  # formats the record; a log call whose arguments do not fit its format raises into the caller
+            seen["log"] += 1
+            record.getMessage()
+
+    @contextlib.contextmanager
+    def root_debug():
+        root = logging.getLogger()
+        h, old, dis = Strict(level=logging.DEBUG), root.level, root.manager.disable
+        levels = {n: lg.level for n, lg in root.manager.loggerDict.items() if isinstance(lg, logging.Logger)}
+        root.addHandler(h)
+        root.setLevel(logging.DEBUG)
+        logging.disable(logging.NOTSET)
+        for n in levels:
+            if not n.startswith(("numpy", "asyncio", "concurrent")):
+                logging.getLogger(n).setLevel(logging.NOTSET)
+        try:
+            yield
+        finally:
+            root.removeHandler(h)
+            root.setLevel(old)
+            logging.disable(dis)
+            for n, lv in levels.items():
+                logging.getLogger(n).setLevel(lv)
+
+    @contextlib.contextmanager
+    def stream(name):
+        old = getattr(sys, name)
+        setattr(sys, name, _Broken())
+        try:
+            yield
+        finally:
+            setattr(sys, name, old)
+
+    def with_(cm, before_each=None):
+        def f(inps):
+            with cm():
+                return run_sample(inps, before_each)
+        return f
+
+    def reseeded(inps):
+        st, nst = random.getstate(), numpy.random.get_state()
+        try:
+            def again(k):
+                random.seed(4711)
+                numpy.random.seed(4711)
+            return run_sample(inps, again)
+        finally:
+            random.setstate(st)
+            numpy.random.set_state(nst)
+
+    @contextlib.contextmanager
+    def warn_error():
+        with warnings.catch_warnings():
+            warnings.simplefilter("error")
+            yield
+
+    def thread(inps):
+        box = []
+        t = threading.Thread(target=lambda: box.append(run_sample(inps)), name="c01-ambient")
+        t.start()
+        t.join()
+        return box[0] if box else [{"failures": [], "pairs": [], "crash": "worker thread died"} for _ in inps]
+
+    def gc_off(inps):
+        was = gc.isenabled()
+        gc.disable()
+        try:
+            return run_sample(inps, lambda k: gc.collect(0) if k % 16 == 0 else None)
+        finally:
+            if was:
+                gc.enable()
+
+    def no_stdout(inps):
+        old = sys.stdout, sys.stderr
+        sys.stdout = sys.stderr = None  # a windowed / detached interpreter
+        try:
+            return run_sample(inps)
+        finally:
+            sys.stdout, sys.stderr = old
+
+    def cwd_root(inps):
+        import os
+
+        old = os.getcwd()
+        os.chdir("/")
+        try:
+            return run_sample(inps)
+        finally:
+            os.chdir(old)
+
+    def np_print(inps):
+        old = numpy.get_printoptions()
+        numpy.set_printoptions(threshold=3, edgeitems=1, linewidth=12, precision=1, sign="+")
+        try:
+            return run_sample(inps)
+        finally:
+            numpy.set_printoptions(**old)
+
+    def traced(inps):
+        old = sys.gettrace()
+        sys.settrace(lambda *a: None)  # a debugger / coverage tool is attached (call events only)
+        try:
+            return run_sample(inps)
+        finally:
+            sys.settrace(old)
+
+    return {
+        "root-logger-at-DEBUG": with_(root_debug),
+        "sys.stdout-raises": with_(lambda: stream("stdout")),
+        "sys.stderr-raises": with_(lambda: stream("stderr")),
+        "sys.stdout-and-stderr-are-None": no_stdout,
+        "cwd-is-root": cwd_root,
+        "numpy-printoptions-abbreviate": np_print,
+        "random-reseeded-before-every-step": reseeded,
+        "numpy-errstate-raise": with_(lambda: numpy.errstate(all="raise")),
+        "warnings-as-errors": with_(warn_error),
+        "worker-thread": thread,
+        "gc-disabled": gc_off,
+        "trace-function-set": traced,
+        "failing-calls-before-every-step": lambda inps: run_sample(inps, lambda k: failing_calls()),
+    }
+
+
+def compare_ambient(ctx, name, detail, inps, base, got):
+    """every observable of the sample under the ambient setting equals the plain run's"""
+    bad = 0
+    for inp, b, g in zip(inps, base, got):
+        if b == g and not g["failures"] and not g["crash"]:
+            continue
+        if b["failures"] or b["crash"]:
+            continue  # fails without the ambient setting, too: reported by the plain run
+        bad += 1
+        if bad > 3:
+            continue
+        if g["crash"]:
+            what, exp, act = f"the oracle could not be evaluated: {g['crash']}", None, g["crash"]
+        elif g["failures"]:
+            kind, w, exp, act = g["failures"][0]
+            what = f"{kind}: {w}"
+        else:
+            d = next(((lb, ob, og) for (lb, ob), (lg, og) in zip(b["pairs"], g["pairs"]) if (lb, ob) != (lg, og)), None)
+            what, exp, act = (f"observable of `{d[0][:60]}…` differs", d[1], d[2]) if d else ("a different number of observables", len(b["pairs"]), len(g["pairs"]))
+        ctx.fail("ambient", {"mode": "ambient", "ambient": name, "detail": detail, "inner": inp},
+                 f"under the ambient setting '{name}' ({detail}) a burst that round-trips in the plain interpreter does not: {what}", expected=exp, actual=act)
+    return bad
+
+
+def child_main():
+    """entry of the child interpreter (started by run_child with CHILD_FLAGS / CHILD_ENV): jobs as JSON on stdin, results on stdout"""
+    import os
+    import sys
+
+    real = os.fdopen(os.dup(1), "w")
+    sys.stdout = sys.stderr  # nothing the library prints may reach the result stream
+    res = {"flags": {"optimize": sys.flags.optimize, "bytes_warning": sys.flags.bytes_warning, "hash_seed": os.environ.get("PYTHONHASHSEED")}}
+    try:
+        jobs = json.load(sys.stdin)
+        try:
+            import okdmr.dmrlib as _l
+
+            res["lib"] = os.path.dirname(os.path.abspath(_l.__file__))
+            lib()
+            init_kinds()
+        except BaseException as e:  # noqa
+            res["import_error"] = f"{type(e).__name__}: {e}"[:500]
+        else:
+            failing_calls()  # the first calls this process makes on the library are rejected ones
+            res["results"] = run_sample(jobs)
+    except BaseException as e:  # noqa
+        res["harness_error"] = f"{type(e).__name__}: {e}"[:500]
+    json.dump(res, real)
+    real.flush()
+
+
+def run_child(inps, flags=None, env=None):
+    import os
+    import subprocess
+
+    import okdmr.dmrlib as _l
+    from common import Infra, PY
+
+    harness = os.path.dirname(os.path.dirname(os.path.abspath(__file__)))
+    code = f"import sys; sys.path.insert(0, {harness!r}); from props import c01; c01.child_main()"
+    e = dict(os.environ)
+    e.update(CHILD_ENV if env is None else env)
+    try:
+        p = subprocess.run([PY] + list(CHILD_FLAGS if flags is None else flags) + ["-c", code], input=json.dumps(inps), capture_output=True, text=True, timeout=300, env=e)
+    except subprocess.TimeoutExpired:
+        raise Infra("the child interpreter of the ambient check did not finish in 300 s")
+    try:
+        res = json.loads(p.stdout)
+    except ValueError:
+        raise Infra(f"the child interpreter of the ambient check gave no result (rc={p.returncode}): {p.stderr[-600:]}")
+    if "harness_error" in res:
+        raise Infra(f"the child interpreter of the ambient check failed in the harness: {res['harness_error']}")
+    mine = os.path.dirname(os.path.abspath(_l.__file__))
+    if res.get("lib") not in (None, mine):
+        raise Infra(f"the child interpreter imported the library from {res.get('lib')}, not {mine}")
+    return res
+
+
+def ambient_sample(rng, n_hist=1):
+    """the sample every ambient setting re-runs: every payload kind / variant assembled, serialised, parsed, re-serialised (all ten sync
+    patterns, all colour codes over the list), every reuse script, voice bursts around every sync pattern and EMB, every family of entry
+    points with both timeslots, the attribute sweep, the library's generators"""
+    Burst, BT, DT, SP, ST, EMB = lib()
+    init_kinds()
+    voice, data, other = sync_sets()
+    out, k = [], 0
+    srcs = payload_sources()
+    for kname, dt, src, _t in srcs:
+        for var in src.variants:
+            k += 1
+            c = data_content(rng, kname, src, var, k % 16, data[k % 4])
+            out.append(dict(c, mode="data"))
+            if k % 3 == 0:
+                e = rng.choice([s for s in entry_specs(rng) if s["via"] in ("from_mmdvm", "from_hytera_ipsc")])
+                out.append({"mode": "entry", "entry": e, "content": data_content(rng, kname, src, var, (k * 7) % 16, data[(k // 3) % 4]), "attrs": None})
+    for i, script in enumerate(HISTORY_SCRIPTS):
+        for j in range(n_hist):
+            kname, dt, src, _t = srcs[(5 * i + 3 * j) % len(srcs)]
+            var = src.variants[(i + j) % len(src.variants)]
+            fix = (lambda v: dict(v, crc=(v["crc"] if len(v["crc"]) == 24 else c03.BITS(24).rand(rng)))) if kname in ("vlc", "tlc") else (lambda v: v)
+            v1 = fix(var.random_vals(rng))
+            if var.fix:
+                v1 = fix(var.fix(v1))
+            cc1, cc2 = rng.sample(range(16), 2)
+            s1, s2 = rng.sample(data, 2)
+            out.append({"mode": "history", "script": script, "kind": kname, "c03kind": src.name, "variant": var.name, "fields": v1, "fields2": vary(rng, var, v1, fix),
+                        "cc": cc1, "cc2": cc2, "sync": s1.name, "sync2": s2.name})
+    for c in voice_contents(rng) + voice_contents(rng)[-1:]:
+        for bt in ("V", "U"):
+            out.append({"mode": "voice", "bits": c["bits"], "burst_type": bt})
+        out.append({"mode": "entry", "entry": {"via": "from_mmdvm", "slot": 1, "call": 0, "ftype": 1, "dtype": 0, "seq": 3, "src": 1, "dst": 2, "rptr": 3, "stream": 4, "tail": ""},
+                    "content": c, "attrs": None})
+        out.append({"mode": "entry", "entry": {"via": "from_hytera_ipsc", "how": "kaitai", "ts": 0x2222, "slot": 0x8888, "call": 1, "ftype": 0xBBBB, "ptype": 65, "cc": 1,
+                                              "pad": 0, "seq": 3, "src": 1, "dst": 2}, "content": c, "attrs": None})
+    kname, dt, src, _t = srcs[0]
+    out.append({"mode": "entry", "entry": {"via": "from_bytes", "bt": "D"}, "content": data_content(rng, kname, src, src.variants[0], 9, SP.Tdma1Data), "attrs": "all"})
+    out.append({"mode": "entry", "entry": {"via": "assemble"}, "content": data_content(rng, kname, src, src.variants[1], 4, SP.Tdma2Data), "attrs": "all"})
+    out.append({"mode": "entry", "entry": {"via": "from_bits", "bt": "V"}, "content": voice_contents(rng)[2], "attrs": "all"})
+    out += generator_cases(rng)[::3]
+    return out
+
+
+def check_ambient(ctx):
+    import random
+    import time
+
+    rng = random.Random("C01:ambient")  # the same sample for every seed (quick); thorough adds a seeded share
+    inps = ambient_sample(rng)
+    if ctx.thorough():
+        inps += ambient_sample(ctx.rng, n_hist=3) + ambient_sample(ctx.rng)
+    base = run_sample(inps)
+    for inp, b in zip(inps, base):  # the plain run of the sample is an ordinary part of the oracle
+        ctx.case(("ambient-sample", json.dumps(inp, sort_keys=True)))
+        for kind, what, exp, act in b["failures"]:
+            ctx.fail(kind, inp, what, exp, act)
+        if b["crash"]:
+            ctx.fail("oracle-crash", inp, f"the oracle could not be evaluated: {b['crash']}", actual=b["crash"])
+    for name, fn in ambient_settings().items():
+        got = fn(inps)
+        ctx.count(f"ambient:{name}", len(inps))
+        compare_ambient(ctx, name, "in this process", inps, base, got)
+    t = time.time()
+    res = run_child(inps)
+    detail = f"child interpreter: python {' '.join(CHILD_FLAGS)}, " + ", ".join(f"{k}={v}" for k, v in CHILD_ENV.items())
+    if res["flags"]["optimize"] < 1:
+        from common import Infra
+
+        raise Infra("the child interpreter of the ambient check did not run optimised")
+    if "import_error" in res:
+        ctx.fail("ambient", {"mode": "ambient", "ambient": "child", "detail": detail, "inner": None},
+                 f"in a {detail} the library cannot be imported: {res['import_error']}", actual=res["import_error"])
+    else:
+        ctx.count("ambient:child-python-O", len(inps))
+        compare_ambient(ctx, "child", detail, inps, base, res["results"])
+    ctx.notes.append(f"ambient child ({detail}): {len(inps)} sampled inputs in {time.time() - t:.1f} s")
+
+
+def plain_entries(specs):
+    return [e for e in specs if announced(e) in ("U", "V", "D")]
+
+
+def check_provenance(ctx, pairs, hold):
+    """(1) every entry point x every flag combination x every sync pattern (data syncs: an assembled payload, kinds rotating; the others:
+    vocoder bits) and valid EMB; (2) the attribute sweep on objects of every entry family x every sync pattern and EMB"""
+    Burst, BT, DT, SP, ST, EMB = lib()
+    rng = ctx.rng
+    voice, data, other = sync_sets()
+    variants = [(kname, src, var) for kname, dt, src, _t in payload_sources() for var in src.variants]
+    specs = entry_specs(rng)
+    k = 0
+    for rep in range(ctx.budget(1, 6) // ctx.boost or 1):
+        order = list(specs) if rep == 0 else entry_specs(rng)
+        rng.shuffle(order)  # the entry points take turns (state one of them leaves behind meets the others)
+        for e in order:
+            contents = []
+            for s in data:
+                k += 1
+                kname, src, var = variants[k % len(variants)]
+                contents.append(data_content(rng, kname, src, var, rng.randrange(16), s))
+            for c in contents + voice_contents(rng):
+                inp = {"mode": "entry", "entry": e, "content": c, "attrs": None}
+                if rng.random() < 0.25:
+                    cls = "voice-sync" if content_class(c) == "other-sync" else content_class(c)
+                    inp["attrs"] = [list(t) for t in rng.sample(attr_tokens("pseudo" if announced(e) in ("sync", "wakeup") else cls), 6)]
+                ctx.case(("entry", json.dumps(inp, sort_keys=True)), sample=inp if (e["via"], c.get("sync")) == ("from_mmdvm", "Tdma1Data") and e["slot"] == 1 else None)
+                ctx.count(f"provenance:{e['via']}:{announced(e)}")
+                ctx.count(f"provenance:centre={c.get('sync') or c.get('centre', '').split(' ')[0]}")
+                check_entry(ctx, inp, pairs, hold=hold)
+    # undefined enum values in the IPSC frame: rejected (correspondence only)
+    x = bitarray(voice_contents(rng)[0]["bits"])
+    for how in ("bytes", "kaitai"):
+        for slot, call_, ts in ((0x1234, 1, 0x1111), (0x3333, 5, 0x1111), (0x3333, 1, 0x3333), (0xEEEE, 7, 0x2222)):
+            e = {"via": "from_hytera_ipsc", "how": how, "ts": ts, "slot": slot, "call": call_, "ftype": 0, "ptype": 65, "cc": 1, "pad": 0, "seq": 0, "src": 1, "dst": 2}
+            q, err = call(enter, e, x)
+            pairs.append((entry_line(e, c03.sbits(x)), err or "ok " + type(q).__name__))
+            ctx.count("provenance:from_hytera_ipsc:undefined-enum-value")
+    # the attribute sweep
+    fam = [{"via": "assemble"}, {"via": "from_bytes", "bt": "D"}, {"via": "from_bits", "bt": "U"}, {"via": "pickle", "bt": "V"}]
+    fam += [next(e for e in specs if e["via"] == "from_mmdvm" and e["slot"] == 1 and not e.get("edit")),
+            next(e for e in specs if e["via"] == "from_hytera_ipsc" and e["ts"] == 0x2222 and e["slot"] == 0x3333),
+            next(e for e in specs if e["via"] == "from_hytera_ipsc" and e["ts"] == 0x2222 and e["slot"] == 0x7777),
+            next(e for e in specs if e["via"] == "from_hytera_ipsc" and announced(e) == "sync"),
+            next(e for e in specs if e["via"] == "from_hytera_ipsc" and announced(e) == "wakeup")]
+    per = len(fam) if ctx.thorough() else 3
+    j = 0
+    for rep in range(ctx.budget(1, 3) // ctx.boost or 1):
+        contents = []
+        for s in data:
+            k += 1
+            kname, src, var = variants[k % len(variants)]
+            contents.append(data_content(rng, kname, src, var, rng.randrange(16), s))
+        for c in contents + voice_contents(rng):
+            chosen = list(fam[1:]) if ctx.thorough() else []
+            while len(chosen) < per - ("bits" not in c):
+                j += 1
+                chosen.append(fam[1 + j % (len(fam) - 1)])
+            for e in ([fam[0]] if "bits" not in c else []) + chosen:
+                j += 1
+                cls = "voice-sync" if content_class(c) == "other-sync" else content_class(c)
+                tokens = [list(t) for t in attr_tokens("pseudo" if e["via"] != "assemble" and announced(e) in ("sync", "wakeup") else cls)]
+                if j % 2:
+                    rng.shuffle(tokens)
+                inp = {"mode": "entry", "entry": e, "content": c, "attrs": tokens}
+                ctx.case(("entry-attrs", json.dumps(inp, sort_keys=True)))
+                ctx.count(f"provenance:attribute-sweep:{e['via']}")
+                check_entry(ctx, inp, pairs, hold=hold)
+    for inp in generator_cases(rng):
+        ctx.case(("generator", json.dumps(inp, sort_keys=True)))
+        ctx.count(f"provenance:generator:{inp['fn']}")
+        check_generator(ctx, inp, pairs)
+
+
 def run(ctx):
     Burst, BT, DT, SP, ST, EMB = lib()
     payload_text.kinds = {k.name: k for k in c03.kinds()}
@@ -640,7 +1624,13 @@ def run(ctx):
         "flips, sync patterns inside the vocoder bits, valid slot type words at the slot type positions of voice bursts, rate 1 payloads "
         "holding a sync pattern. reuse histories on one Burst object for every kind / variant x 8 scripts (in-place payload mutation, slot "
         "type / sync / payload replacement, recycled payload address, parse-mutate-serialise, as_bits twice / returned bits scribbled), held "
-        "objects re-verified at the end. distinct = distinct (kind, variant, fields, cc, sync) / burst bit string / history spec"
+        "objects re-verified at the end. provenance: every entry point yielding a Burst (constructor forms, from_bits, from_bytes with 5 buffer "
+        "types, from_mmdvm 2 slots x 2 call types x 4 frame types + hand-edited ints, from_hytera_ipsc bytes / Kaitai x 2 timeslots x 16 slot "
+        "types x call / frame / packet types, copy / deepcopy / pickle, generator functions) x all 10 sync patterns + EMB; attribute sweep: ~110 "
+        "(attribute, value) tokens per object of every entry family x every sync + EMB, cumulative on one object, shuffled half of the time. "
+        "ambient: a fixed sample (~100 inputs of every mode; thorough adds a seeded share) re-evaluated under 13 in-process settings and in one "
+        "child interpreter python -O -bb -W error -X dev PYTHONOPTIMIZE=2. distinct = distinct (kind, variant, fields, cc, sync) / burst bit "
+        "string / history spec / entry spec"
     )
     ctx.trusted_base += [
         "Lean 4.33 kernel",
@@ -648,15 +1638,20 @@ def run(ctx):
         "hand-written models Model/Burst.lean (+ Model/Bptc.lean of C02, Model/Trellis.lean of C10, Model/Pdu*.lean of C03) tied to the code by this run's correspondence",
         "CRC functions are parameters of the theorems; the driver's plain bitwise CRC is compared with the real code by the correspondence",
         "numpy / bitarray / enum are trusted as the substrate of the implementation",
+        "the Kaitai-generated parsers Mmdvm2020 / IpSiteConnectProtocol and HyteraIPSC.from_ipsc_bytes / from_kaitai (C13) are trusted to hand the frame fields to Burst.from_mmdvm / from_hytera_ipsc; the model starts at the fields (frame type / slot as Enum member or int, IPSC slot / call / timeslot values, burst bits)",
+        "ambient check: the harness' own oracle code runs in the child interpreter, too (asserts / docstrings of the harness are stripped there as well); the child imports the library from the same directory as the parent (verified)",
     ]
     ctx.assumptions += [
         "payload objects are what the PDU constructors build from in-range field values (C03's WF predicates); full LC in the 96-bit form",
         "the assembled burst object is the one TransmissionGenerator builds: Burst(DataAndControl) with has_emb=False, sync, SlotType(cc, data type), data assigned",
         "reuse histories change a payload by assigning its public attributes (to the values a constructor call with the new fields stores), replace slot_type / sync_or_embedded_signalling / data by new objects; slot type objects are not changed in place",
         "fec_parity_ok / emb_parity_ok / crc_ok (C04) are not compared",
+        "attributes set by hand: those the model's serialisation does not read (Props/C01 serialise_reads_data / serialise_reads_voice / serialise_ignores_aux); has_slot_type of a data burst, has_emb, is_data_or_control select the serialisation path and are not swept; the two Hytera pseudo bursts (IPSC sync / wakeup) are outside the property: only 'a constructed one returns the bits it was given'",
+        "ambient settings are sampled (fixed ~100 inputs in quick), not swept over the whole generator; forced thread interleavings, bitarray / numpy versions, low recursion limits, little-endian containers are out of scope",
     ]
     rng = ctx.rng
     pairs_build, pairs_parse = [], []
+    hist_entries = plain_entries(entry_specs(rng))
     hold = Hold(every=ctx.budget(23, 97) // ctx.boost or 1, cap=400)
     # ---- corpus: the three repaired C03 defects surface here as field mismatches
     ks = payload_text.kinds
@@ -730,6 +1725,10 @@ def run(ctx):
                     s1, s2 = rng.sample(data, 2)
                     spec = {"mode": "history", "script": script, "kind": kname, "c03kind": src.name, "variant": var.name, "fields": vals1,
                             "fields2": vals2, "cc": cc1, "cc2": cc2, "sync": s1.name, "sync2": s2.name}
+                    if script.startswith("parse") and rng.random() < 0.6:
+                        # the parsed object comes from another entry point of the library (MMDVM / IPSC frame of either timeslot, …)
+                        spec["entry"] = rng.choice(hist_entries)
+                        ctx.count(f"reuse:parsed-by:{spec['entry']['via']}")
                     ctx.case(("history", json.dumps(spec, sort_keys=True)),
                              sample=spec if (kname, var.name, script) in (("csbk", "preamble", "mutate-fields"), ("rate34", "unconfirmed", "parse-mutate")) else None)
                     ctx.count(f"reuse:{script}")
@@ -882,11 +1881,17 @@ def run(ctx):
                 ctx.count("structured:slot-type-word-inside-voice-burst")
                 check_voice(ctx, x, bt, f"{what}, slot type positions hold the word of cc={cc_} {dtm.name}",
                             {"mode": "voice", "bits": c03.sbits(x), "burst_type": bt, "class": f"slot type positions hold SlotType({cc_}, {dtm.name})"}, pairs_voice, hold=hold)
+    # ---- provenance: every entry point that yields a Burst x every sync pattern; attributes set by hand; the library's generators
+    pairs_entry = []
+    check_provenance(ctx, pairs_entry, hold)
     # ---- the objects held since the beginning of the run
     hold.verify(ctx)
     if not ctx.search_only and ctx.driver_ok:
         ctx.correspond("burst.parse(voice)", pairs_voice)
         ctx.correspond("sync.resolve", pairs_resolve)
+        ctx.correspond("burst.entry", pairs_entry)
+    # ---- ambient interpreter / process state
+    check_ambient(ctx)
     # ---- arbitrary and corrupted bursts, slot type and EMB words: correspondence only
     if not ctx.search_only and ctx.driver_ok:
         pairs_rand = []
@@ -934,26 +1939,39 @@ def replay(obj):
         print("no failing input recorded (proof / correspondence broke):", json.dumps(obj.get("no_longer_checks") or obj.get("correspondence_differences"))[:2000])
         return 1
     Burst, BT, DT, SP, ST, EMB = lib()
-    payload_text.kinds = {k.name: k for k in c03.kinds()}
-    r = c03.ReplayCtx()
+    init_kinds()
+    r = Rec()
     pairs = []
     h = Hold(1, 16)
-    if inp.get("mode") == "data":
-        srcs = {(k, s.name): (k, dt, s, t) for k, dt, s, t in payload_sources()}
-        kname, dt, src, _ = srcs[(inp["kind"], inp["c03kind"])]
-        var = next(v for v in src.variants if v.name == inp["variant"])
-        pb = []
-        check_data(r, kname, dt, src, var, inp["fields"], inp["cc"], SP[inp["sync"]], pb, pairs, bts=("D", "V", "U"), hold=h)
-        pairs = pb + pairs
-    elif inp.get("mode") == "voice":
-        check_voice(r, bitarray(inp["bits"]), inp["burst_type"], "replay", inp, pairs, hold=h, twice=True)
-        if "emb2" in inp:
-            voice_emb_reuse(r, bitarray(inp["bits"]), inp["burst_type"], tuple(inp["emb2"]) + (emb_word(*inp["emb2"]),),
-                            {k: v for k, v in inp.items() if k not in ("emb2", "history")})
-    elif inp.get("mode") == "history":
-        pb = []
-        run_history(r, {k: v for k, v in inp.items() if k != "step"}, pb, pairs)
-        pairs = pb + pairs
+    if inp.get("mode") == "ambient":
+        inner = inp.get("inner")
+        name = inp["ambient"]
+        if name == "child":
+            print("child interpreter:", " ".join(CHILD_FLAGS), CHILD_ENV)
+            jobs = [inner] if inner else []
+            base = run_sample(jobs)
+            res = run_child(jobs)
+            if "import_error" in res:
+                r.fail("ambient", inp, f"the library cannot be imported in the child interpreter: {res['import_error']}", actual=res["import_error"])
+            else:
+                compare_ambient(r, name, inp.get("detail"), jobs, base, res["results"])
+            # which of the settings matters
+            for flags, env in ([["-O"], {}], [["-bb"], {}], [["-W", "error"], {}], [["-X", "dev"], {}], [[], {k: v for k, v in CHILD_ENV.items() if k != "PYTHONOPTIMIZE"}]):
+                one = run_child(jobs, flags=flags, env=env)
+                sub = Rec()
+                if "import_error" in one:
+                    sub.fail("ambient", inp, one["import_error"])
+                else:
+                    compare_ambient(sub, name, "", jobs, base, one["results"])
+                print(f"  with only {' '.join(flags) or env}: {'FAILS' if sub.failures else 'ok'}")
+        else:
+            base = run_sample([inner])
+            got = ambient_settings()[name]([inner])
+            compare_ambient(r, name, inp.get("detail"), [inner], base, got)
+        for (line, out) in (base[0]["pairs"][:6] if inner else []):
+            print("plain run     :", line[:120], "->", out[:300])
+    else:
+        run_input(r, inp, pairs, hold=h)
     if h.items:
         # objects held while other bursts are parsed and serialised, then looked at again
         import random
